@@ -13,7 +13,7 @@ Strengthened twice against seeded changes:
       every injected operation, and the same scripts run through the save-aware engine model
       (tools/engine_save.py), whose LOAD keeps the messages (Props/C13.v::load_state_keeps_errors_and_warnings).
 """
-import copy, json, re
+import copy, json, re, time
 import vlib, engine
 from props import hist
 
@@ -297,10 +297,13 @@ def check_injection(case, lines, handler):
 
 
 def run(ctx):
+    t0, stage = time.time(), {}
     exe = vlib.build_harness()
+    stage["harness"] = round(time.time() - t0, 1)
     sw = engine.current_switches()
     ctx.coverage["generated_tables"] = sw
     pr = ctx.proof("theories/Props/C13.v")
+    stage["proof"] = round(time.time() - t0, 1)
     nprog = 10 if ctx.quick() else 60
     progs = hist.programs(ctx, nprog)
     for name, src in EXTRA:
@@ -359,7 +362,9 @@ def run(ctx):
                     icases.append(dict(id=cid, seed=42, fuel=30000, ink=p["ink"],
                                        script=[["FALLBACKS", True]] + ([["HANDLER"]] if handler else []) + ops))
                     imeta[cid] = handler
+    stage["explore"] = round(time.time() - t0, 1)
     res = {r["id"]: r for r in vlib.run_inkdrive(cases + icases, exe)}
+    stage["impl_runs"] = round(time.time() - t0, 1)
     fails, n_checked, n_msgs = [], 0, 0
     for cid, m in meta.items():
         r = res.get(cid)
@@ -453,27 +458,29 @@ def run(ctx):
     rest = [c for c in icases if "|inj-fixed|" not in c["id"]]
     ctx.rng.shuffle(head)
     ctx.rng.shuffle(rest)
-    nfix, nrest = (10, 14) if ctx.quick() else (80, 240)
+    nfix, nrest = (8, 10) if ctx.quick() else (80, 240)
     scases = [dict(c, id="s:" + c["id"], script=[o for o in c["script"] if o[0] != "MSGS"]) for c in head[:nfix] + rest[:nrest]]
     sres, save_note = [], None
     if scases:
         import engine_save
         ctx.build(["theories/Engine/RunSave.vo"])
-        sres = engine_save.compare(scases, exe=exe, sw=sw, shard=(4 if ctx.quick() else 24))
+        sres = engine_save.compare(scases, exe=exe, sw=sw, shard=(3 if ctx.quick() else 24))
         if any(r["status"] == "model-error" for r in sres):
             ctx.build(["theories/Engine/RunSave.vo"])
-            sres = engine_save.compare(scases, exe=exe, sw=sw, shard=(4 if ctx.quick() else 24))
+            sres = engine_save.compare(scases, exe=exe, sw=sw, shard=(3 if ctx.quick() else 24))
         bad = [r for r in sres if r["status"] == "model-error"]
         if bad:
             # the save-aware model belongs to C02: a model-side failure (e.g. a concurrent rebuild) is only noted
             save_note = "engine_save model-error ignored in C13: " + (bad[0].get("error") or "")[-200:]
             ctx.notes.append(save_note)
             sres = [r for r in sres if r["status"] != "model-error"]
+    stage["save_model"] = round(time.time() - t0, 1)
     sample = list(cases)
     ctx.rng.shuffle(sample)
-    sample = sample[: (80 if ctx.quick() else 800)]
+    sample = sample[: (60 if ctx.quick() else 800)]
     mcases = [dict(c, id="m:" + c["id"]) for c in sample]
-    cres = engine.compare(mcases, exe, sw)
+    cres = engine.compare(mcases, exe, sw, shard=(8 if ctx.quick() else 40))
+    stage["engine_model"] = round(time.time() - t0, 1)
     cres += sres
     mcases += scases
     mism = [r for r in cres if r["status"] in ("mismatch", "model-error")]
@@ -492,6 +499,7 @@ def run(ctx):
         injection_scripts=len(icases), injection_scripts_checked=n_inj_checked,
         injected_ops_with_messages_pending=n_inj_pending,
         save_model_scripts_agreeing=sum(1 for r in sres if r["status"] == "agree"),
+        seconds_elapsed_after_stage=stage,
         samples=[cases[0]["script"] if cases else []],
         traces_validated_against_impl=agree, correspondence_mismatches=len(mism), programs=len(progs) + len(vprogs)))
     seen = set()
